@@ -76,6 +76,7 @@ ParCSRMatrix* read_par_mm(const char *fname)
         if (n_items_read == EOF) printf("EOF reading code\n");
         row--;
         col--;
+        bool is_diag = (row == col);
         if (row >= A->partition->first_local_row && row <= A->partition->last_local_row)
         {
             row_local = true;
@@ -111,7 +112,7 @@ ParCSRMatrix* read_par_mm(const char *fname)
             }
         }
 
-        if (symmetric)
+        if (symmetric && !is_diag)
         {
             if (col_local)
             {
